@@ -88,6 +88,7 @@ struct ObjOf : Obj {
         case R_Buf: return st(nop::Deserializer<nop::BufferReader*>(&r.buf).Read(obj));
         case R_Ped: return st(nop::Deserializer<nop::PedanticBufferReader*>(&r.ped).Read(obj));
         case R_Str: return st(nop::Deserializer<SStreamReader*>(r.str.get()).Read(obj));
+        case R_FStr: return st(nop::Deserializer<FStreamReader*>(r.fstr.get()).Read(obj));
         case R_BBuf: return st(nop::Deserializer<nop::BoundedReader<nop::BufferReader>*>(&r.bbuf).Read(obj));
         case R_BPed: return st(nop::Deserializer<nop::BoundedReader<nop::PedanticBufferReader>*>(&r.bped).Read(obj));
         case R_BStr: return st(nop::Deserializer<nop::BoundedReader<SStreamReader>*>(&r.bstr).Read(obj));
